@@ -700,7 +700,7 @@ func rule058(r *core.Run) {
 			bad := ""
 			for _, g := range core.GuardsOf(c) {
 				// the whole merged condition counts: a flag variable assigned from the configuration
-				gs := r.P.SliceOf(g.If.Cond, core.SliceOpts{Depth: -1})
+				gs := r.P.SliceOf(g.If.Cond, core.SliceOpts{Depth: -1, Control: true})
 				for cc := range gs.Calls {
 					if strings.HasSuffix(r.P.CalleeName(cc), "VersionedBackend.VersioningConfiguration") {
 						// the error result of the configuration call may be checked; its value may not decide
